@@ -292,7 +292,7 @@ EXPECT_BODIES = {
     ("ParseTimeout", "unparse"): ("if n0 == n0 and abs(n0) != float(<S0>):\n"
                                   "    if n0 >= <I0> and n0 == int(n0):\n        return f<F0>\n"
                                   "    n1 = n0 * <I1>\n"
-                                  "    if n1 == int(n1) and n1 / <I2> == n0:\n        return f<F1>\n"
+                                  "    if abs(n1) != float(<S1>) and n1 == int(n1) and (n1 / <I2> == n0):\n        return f<F1>\n"
                                   "return f<F2>"),
     ("ParseArrayLengths", "parse"): "if not n0:\n    return {}\nn0 = <S0>.join(n0.split())\nif not re.match(<S1>, n0):\n    raise ValueError(f<F0>)\nn1 = re.findall(<S2>, n0)\nreturn {n2.strip(): ensure_non_empty([int(n5) for n5 in parse_csv(n3 or n4)]) for n2, n3, n4 in n1}",
     ("ParseArrayLengths", "unparse"): "return <S0>.join([f<F0> for n1, n2 in n0.items()])",
@@ -491,9 +491,10 @@ def translate(src_text):
     # if value == value and abs(value) != float(<S0>):
     #     if value >= <I0> and value == int(value): return f"{int(value)}<large suffix>"
     #     ms = value * <I1>
-    #     if ms == int(ms) and ms / <I2> == value: return f"{int(ms)}<small suffix>"
+    #     if abs(ms) != float(<S1>) and ms == int(ms) and ms / <I2> == value: return f"{int(ms)}<small suffix>"
     # return f"{value!r}<exact suffix>"
     L.append(f"Definition timeout_unparse_inf_literal : list Z := {coq_str(to_u['S'][0])}.   (* float(<this>) *)")
+    L.append(f"Definition timeout_unparse_ms_inf_literal : list Z := {coq_str(to_u['S'][1])}.   (* float(<this>), in the test of ms *)")
     L.append(f"Definition timeout_unparse_threshold : Z := {to_u['I'][0]}.")
     L.append(f"Definition timeout_unparse_small_factor : Z := {to_u['I'][1]}.")
     L.append(f"Definition timeout_unparse_small_divisor : Z := {to_u['I'][2]}.")
